@@ -282,7 +282,7 @@ class C18(Check):
             res.add_sim("flow_steps", n)
             if program.get("time0", 0.0) > 0:
                 res.probe("late_start_time")
-            res.add_sim("flow_time", float(traj[-1]["time"][0]))
+            res.add_sim("flow_time", float(traj[-1]["time"][0]) - float(traj[0]["time"][0]))
             finite = bool(np.isfinite(traj[-1]["vorticity"]).all())
             if not finite:
                 res.probe("uninterrupted_run_blew_up")
